@@ -24,4 +24,4 @@ for c in $CRATES; do cargo test --offline -p $c 2>&1 | grep -E "^test result" | 
 git checkout -q -- . ; git clean -fdq -e _seed
 echo "== /verif check with patch applied to /repo"
 cd /repo && [ -z "$(git status --porcelain --untracked-files=no)" ] || { echo "/repo dirty"; exit 9; }
-git apply $S/patch.diff && (cd /verif && ./check $PROP; echo "check-exit=$?"); git -C /repo checkout -q -- .
+git apply $S/patch.diff && (cd /verif && VERIF_EVIDENCE_DIR=/verif/.cache/evidence-mut ./check $PROP; echo "check-exit=$?"); git -C /repo checkout -q -- .
